@@ -399,18 +399,33 @@ func c20Key(c *Ctx) {
 	// every value derived from the query parameter that reaches Marshal / Sprintf passes ToLower
 	found := false
 	bad := ""
+	// the normalised query: a string derived from the query parameter through
+	// ToLower (written here or in a helper) and nothing but TrimSpace besides
 	ssau.ForEachInstr(gk, false, func(in ssa.Instruction) {
 		call, ok := in.(*ssa.Call)
-		if !ok || ssau.CallName(call) != "strings.ToLower" {
+		if !ok {
 			return
 		}
-		steps, root := stringChain(call.Common().Args[0])
-		if root == ssa.Value(gk.Params[1]) {
-			found = true
-			for _, s := range steps {
-				if s.kind != "trim" {
-					bad = "the key applies " + s.kind + " to the query besides ToLower and TrimSpace: it is coarser than the engine's own normalisation"
-				}
+		if b, isB := call.Type().Underlying().(*types.Basic); !isB || b.Kind() != types.String {
+			return
+		}
+		steps, root := stringChain(call)
+		if root != ssa.Value(gk.Params[1]) {
+			return
+		}
+		lower := false
+		for _, s := range steps {
+			if s.kind == "lower" {
+				lower = true
+			}
+		}
+		if !lower {
+			return
+		}
+		found = true
+		for _, s := range steps {
+			if s.kind != "trim" && s.kind != "lower" {
+				bad = "the key applies " + s.kind + " to the query besides ToLower and TrimSpace: it is coarser than the engine's own normalisation"
 			}
 		}
 	})
